@@ -23,7 +23,7 @@ def suites(tier):
     cfg = dict(read0=0, reads=0, idle=1)
     jobs.append(dict(id=jid("feed", cfg), func="zzH_C06_feed", cfg=cfg))
     for tail in ((0, 2) if q else (0, 1, 2, 4)):
-        cfg = dict(tail=tail, ops=6 if q else 10)
+        cfg = dict(tail=tail, ops=(8 if tail else 6) if q else 10)  # 8: trim, refill past the short first chunk, trim again
         jobs.append(dict(id=jid("chunks", cfg), func="zzH_C06_chunks", cfg=cfg))
     for wn, field in ((0, 1), (1, 1), (1, 2)):
         cfg = dict(withnth=wn, field=field, records=3, nmax=2 if q else 3, headers=2)
